@@ -131,6 +131,25 @@ Proof.
   - intros ->. induction l2 as [|b l2 IH]; simpl; constructor; auto.
 Qed.
 
+Lemma Forall2_In_r {A B} (R : A -> B -> Prop) l1 l2 y :
+  Forall2 R l1 l2 -> In y l2 -> exists x, In x l1 /\ R x y.
+Proof.
+  intros F. induction F as [|a b l1 l2 Hab F IH]; simpl; [contradiction|].
+  intros [<-|H]; [exists a; split; [left; reflexivity | exact Hab]|].
+  destruct (IH H) as (x & Hx & Hr). exists x. split; [right|]; assumption.
+Qed.
+
+Lemma Forall2_In_l {A B} (R : A -> B -> Prop) l1 l2 x :
+  Forall2 R l1 l2 -> In x l1 -> exists y, In y l2 /\ R x y.
+Proof.
+  intros F. induction F as [|a b l1 l2 Hab F IH]; simpl; [contradiction|].
+  intros [<-|H]; [exists b; split; [left; reflexivity | exact Hab]|].
+  destruct (IH H) as (y & Hy & Hr). exists y. split; [right|]; assumption.
+Qed.
+
+Lemma Forall2_len {A B} (R : A -> B -> Prop) l1 l2 : Forall2 R l1 l2 -> List.length l1 = List.length l2.
+Proof. intros F. induction F; simpl; [reflexivity | f_equal; assumption]. Qed.
+
 (** ** [map_err] *)
 Lemma map_err_Forall2 {A B E} (f : A -> B + E) l r :
   map_err f l = inl r <-> Forall2 (fun x y => f x = inl y) l r.
